@@ -20,7 +20,7 @@ func init() {
 			"(P01-norecord) a record is returned only when that list is empty, and both engines return records only when no block had errors; (P01-placeholder) in an open range any placeholder character other than '?' is rejected on every path; (P01-guards) the headline guard for left-over text rejects on any remaining character; (P01-kinds) every error kind defined for the parser is raised somewhere in it; " +
 			"(P01-lex) the date, time and duration patterns are language-equivalent to the specification's lexical shapes and include all spec-valid literals, their constructors fail on every path where the pattern does not match, and the summary-line patterns equal 'starts with tab or Zs' / 'only tab or Zs'. " +
 			"Not covered: block splitting, indentation uniformity, section order and the values extracted (12-hour conversion, shifts, 24:00 folding, file order of entries) — these need an oracle evaluated on inputs.",
-		rules: []ruleFn{ruleP01ErrChecked, ruleP01ErrFlow, ruleP01NoRecord, ruleP01Placeholder, ruleP01Guards, ruleP01Kinds, ruleP01Lex, ruleP01GroupGuards},
+		rules: []ruleFn{ruleP01ErrChecked, ruleP01ErrFlow, ruleP01NoRecord, ruleP01Placeholder, ruleP01Guards, ruleP01Kinds, ruleP01Lex, ruleP01GroupGuards, ruleP01SummaryEmpty, ruleP08LoopExit},
 		trusted: []string{"reference languages transcribed from Specification.md: date \\d{4}[-/]\\d{2}[-/]\\d{2}; time <?\\d{1,2}:\\d{2}(am|pm)?>?; duration [-+]?(\\d+h)?(\\d+m)?; blank = tab or Unicode Zs", "Go's regexp package implements the regexp/syntax semantics the comparison uses"},
 	})
 	register(&propSpec{
@@ -769,7 +769,7 @@ func ruleP16AmPm(p *Prog, r *Report) {
 		// which hour class does the block belong to, given guards on t.hour; 24h -> "24"
 		eq := map[int64]bool{}
 		neq := map[int64]bool{}
-		gt12, le12 := false, false
+		gt12, le12, ge12, lt12 := false, false, false, false
 		is24 := false
 		for _, g := range guardsOf(b) {
 			if _, fld := fieldLoad(g.Cond); fld == "Use24HourClock" && g.Pol {
@@ -797,7 +797,22 @@ func ruleP16AmPm(p *Prog, r *Report) {
 				gt12 = true
 			case bo.Op == token.GEQ && k == 13 && !g.Pol:
 				le12 = true
+			case bo.Op == token.GEQ && k == 12 && g.Pol:
+				ge12 = true
+			case bo.Op == token.GEQ && k == 12 && !g.Pol:
+				lt12 = true
+			case bo.Op == token.LSS && k == 12 && g.Pol:
+				lt12 = true
+			case bo.Op == token.LSS && k == 12 && !g.Pol:
+				ge12 = true
 			}
+		}
+		if ge12 && neq[12] {
+			gt12 = true
+		}
+		if lt12 {
+			le12 = true
+			neq[12] = true
 		}
 		switch {
 		case is24:
